@@ -4,7 +4,7 @@
    [adj n8 p q]  : geometric adjacency of positions (edge-sharing; plus corner-sharing when n8)
    [conn .. p q] : p and q are joined by a path of adjacent in-range cells all holding the same number
    [cell (regions_model ..) p] : the label the (modelled) two-pass algorithm returns at p. *)
-Require Import Base.Prelude Base.XVal C16.Model C16.Proofs.
+Require Import Base.Prelude Base.XVal C16.Model C16.Proofs C16.ProofsValue.
 
 (* the clamped window of the code is exactly "the cell itself or its in-range neighbours" *)
 Theorem C16_window_is_neighbourhood : forall n8 rows cols p q, inr rows cols p ->
@@ -56,6 +56,23 @@ Theorem C16_regions_are_components : forall n8 rows cols d, intdata rows cols d 
    conn n8 (Z.of_nat rows) (Z.of_nat cols) (cell d) p q).
 Proof. exact L_components. Qed.
 Print Assumptions C16_regions_are_components.
+
+(* "of equal value": all cells carrying one label hold the same value of the input raster *)
+Theorem C16_region_single_valued : forall n8 rows cols d, intdata rows cols d -> forall p q l,
+  inr (Z.of_nat rows) (Z.of_nat cols) p -> inr (Z.of_nat rows) (Z.of_nat cols) q ->
+  cell (regions_model n8 rows cols d) p = XFin l -> cell (regions_model n8 rows cols d) q = XFin l ->
+  cell d p = cell d q.
+Proof. exact region_single_valued. Qed.
+Print Assumptions C16_region_single_valued.
+
+(* "the connected components": the path relation the labels decide is an equivalence, so regions partition
+   the non-NaN cells (any grid function, any bounds, both neighbourhoods) *)
+Theorem C16_connectivity_is_equivalence : forall n8 rows cols data,
+  (forall p, conn n8 rows cols data p p) /\
+  (forall p q, conn n8 rows cols data p q -> conn n8 rows cols data q p) /\
+  (forall p q r, conn n8 rows cols data p q -> conn n8 rows cols data q r -> conn n8 rows cols data p r).
+Proof. exact conn_equivalence. Qed.
+Print Assumptions C16_connectivity_is_equivalence.
 
 (* the output has the input's shape *)
 Theorem C16_shape_preserved : forall n8 rows cols d,
